@@ -163,7 +163,9 @@ Definition to_text (u : url) : str :=
   let frag := quote_fragment_part (u_frag u) in
   (if nonempty scheme then scheme ++ [COLON] else []) ++
   (if nonempty auth then [SL; SL] ++ auth
-   else if nonempty scheme && negb (starts_with [SL; SL] pth) && uses_netloc u then [SL; SL] else []) ++
+   else if starts_with [SL; SL] pth
+           || (nonempty scheme && (is_nil pth || starts_with [SL] pth) && uses_netloc u)
+        then [SL; SL] else []) ++
   (if nonempty pth
    then (if nonempty scheme && nonempty auth && negb (starts_with [SL] pth) then [SL] else []) ++ pth
    else []) ++
